@@ -24,6 +24,13 @@ Check C08_chunks_tile : forall cs start last lims out stf,
   (tiles start last (map snd out) /\ concat (map fst out) = cs /\ Forall chunk_in_range out).
 Print Assumptions C08_chunks_tile.
 
+(* a message is only oversized through its last change: everything before it is below the
+   limit in force for that message (for every limit schedule) *)
+Theorem C08_oversized_only_by_last_change : forall lims st out stf,
+  run lims st = (out, stf) -> sizes_ok_b lims out = true.
+Proof. exact run_sizes. Qed.
+Print Assumptions C08_oversized_only_by_last_change.
+
 Theorem C08_finished_iterator_yields_none : forall cs start last lims out stf l,
   wf_input cs start last = true ->
   (length cs < length lims)%nat ->
@@ -60,6 +67,11 @@ Theorem C08_chunk_range_callsite : forall s e,
 Proof. intros s e H. apply chunk_range_spec; [vm_compute; discriminate|exact H]. Qed.
 Print Assumptions C08_chunk_range_callsite.
 
+(* the request blocks partition the range: consecutive, sharing no version, at most k versions each *)
+Theorem C08_chunk_range_partition : forall s e k, 1 <= k -> s <= e -> rtiles_b s e k (chunk_range s e k) = true.
+Proof. exact chunk_range_tiles. Qed.
+Print Assumptions C08_chunk_range_partition.
+
 Theorem C08_range_oracle_exact : forall s e bs,
   check_chunk_range s e bs = true <-> range_spec s e bs.
 Proof. exact check_chunk_range_iff. Qed.
@@ -74,5 +86,5 @@ Example C08_nonvacuous :
     [([mkChg 2 10 0; mkChg 4 10 1], (0, 4)); ([mkChg 7 10 2], (5, 7)); ([mkChg 8 10 3], (8, 10))].
 Proof. vm_compute. split; reflexivity. Qed.
 
-Example C08_range_nonvacuous : chunk_range 1 25 10 = [(1, 11); (11, 21); (21, 25)].
+Example C08_range_nonvacuous : chunk_range 1 25 10 = [(1, 10); (11, 20); (21, 25)].
 Proof. vm_compute. reflexivity. Qed.
